@@ -594,5 +594,5 @@ func (c *Chain) rnsGenesisJ() interface{} {
 	for _, p := range gs.PrimaryNameList {
 		prim = append(prim, map[string]interface{}{"owner": p.Owner, "name": p.Name})
 	}
-	return map[string]interface{}{"whoIsList": whois, "namesList": names, "bidsList": bids, "forSaleList": sale, "initList": inits, "primaryNameList": prim}
+	return map[string]interface{}{"whoIsList": whois, "namesList": names, "bidsList": bids, "forSaleList": sale, "initList": inits, "primaryNameList": prim, "validateOk": gs.Validate() == nil}
 }
